@@ -15,6 +15,8 @@ package env
 //@   safety C16
 //@   requires e != nil && t != nil && as(t, "*dials.Type").t != nil
 //@   modifies rh, rec_translate, rec_reverseTranslate, transform.Transformer.mState
+//@   at call transform.NewAliasMangler(:
+//@     assert C14_both_the_dials_and_the_dialsenv_alias_tags_are_honoured: len(arg0) == 2 && cell(selem(arg0, 0), "string") == "dials" && cell(selem(arg0, 1), "string") == "dialsenv"
 //@   at call transform.NewTransformer:
 //@     assert C14_alias_mangler_is_first: len(arg1) >= 1 && isType(cell(selem(arg1, 0), "Iface"), "*transform.AliasMangler")
 //@     assert C11_string_cast_is_last: lastManglerIsStringCast(arg1)
